@@ -146,9 +146,13 @@ func (x *ctx) consume(vals []*big.Int, rng *rand.Rand) {
 		want := ref.Encode(T.Ref.Mul(v))
 		wantB := ref.Encode(ref.B.Mul(new(big.Int).Mod(v, ref.L)))
 		for name, f := range map[string]func() *curve.EdwardsPoint{
-			"Mul(radix16 lookups)":          func() *curve.EdwardsPoint { return curve.NewEdwardsPoint().Mul(T.Lib, s) },
-			"Straus-vartime(NAF5 lookups)":  func() *curve.EdwardsPoint { return curve.NewEdwardsPoint().MultiscalarMulVartime([]*scalar.Scalar{s}, []*curve.EdwardsPoint{T.Lib}) },
-			"DoubleBase(NAF5+NAF8 lookups)": func() *curve.EdwardsPoint { return curve.NewEdwardsPoint().DoubleScalarMulBasepointVartime(s, T.Lib, scalar.New()) },
+			"Mul(radix16 lookups)": func() *curve.EdwardsPoint { return curve.NewEdwardsPoint().Mul(T.Lib, s) },
+			"Straus-vartime(NAF5 lookups)": func() *curve.EdwardsPoint {
+				return curve.NewEdwardsPoint().MultiscalarMulVartime([]*scalar.Scalar{s}, []*curve.EdwardsPoint{T.Lib})
+			},
+			"DoubleBase(NAF5+NAF8 lookups)": func() *curve.EdwardsPoint {
+				return curve.NewEdwardsPoint().DoubleScalarMulBasepointVartime(s, T.Lib, scalar.New())
+			},
 		} {
 			var got *curve.EdwardsPoint
 			pan, msg := mon.Try(func() { got = f() })
